@@ -10,7 +10,7 @@
    (placeholder): its lemma is then proved by the first, `reflexivity`, alternative. *)
 From Coq Require Import List ZArith Bool Lia.
 From DV Require Import Base.PyTuple Base.PyList Model.C04_NDSort Model.C04_LogSort Model.C04_GenRt
-  Proofs.C04_LogBase Proofs.C04_GenRtFacts Gen.C04_gen.
+  Proofs.C04_NDSort Proofs.C04_LogBase Proofs.C04_GenRtFacts Gen.C04_gen.
 Import ListNotations.
 Local Open Scope Z_scope.
 
@@ -129,9 +129,6 @@ Lemma gen_sweepB_eq best worst front : gen_sweepB best worst front = sweepB best
 Proof. reflexivity. Qed.   (* sweepB is outside the translator's grammar (while / iterator): placeholder *)
 
 (* ---- sortNDHelperB / sortNDHelperA: same recursion, callee by callee ---- *)
-Lemma fold_left_ext {A S} (f g : S -> A -> S) l : (forall s x, f s x = g s x) -> forall s, fold_left f l s = fold_left g l s.
-Proof. intros H. induction l; intros; cbn; [reflexivity|]. now rewrite H. Qed.
-
 Lemma zlen_2_inv {A} (l : list A) : zlen l = 2 -> exists a b, l = [a; b].
 Proof. destruct l as [|a [|b [|c l]]]; unfold zlen; cbn [length]; try lia. eauto. Qed.
 
@@ -183,4 +180,34 @@ Proof.
         | induction fuel as [|fu IH]; intros fs obj front; [reflexivity|];
           cbn [gen_sortNDHelperA helperA]; gnorm; rewrite ?gen_sweepA_eq, ?gen_splitA_eq;
           same_ifs; hA_branch IH ].
+Qed.
+
+(* ---- sortLogNondominated: grouping, dict.fromkeys, the sort, the recursion (with the model's fuel), extraction of the
+   fronts and the trimming loop.  `individuals[0]` of the empty population raises in Python: the equality is claimed for
+   non-empty populations (every C04 theorem about the divide-and-conquer sort has that hypothesis). ---- *)
+Lemma gen_sortLogNondominated_eq pop k ffo : pop <> [] -> gen_sortLogNondominated pop k ffo = sort_log pop k ffo.
+Proof.
+  intro NE.
+  first [ reflexivity
+        | unfold gen_sortLogNondominated, sort_log, log_ranks, log_extract; gnorm;
+          destruct (k =? 0); [reflexivity|];
+          destruct pop as [|x0 rest]; [congruence|];
+          rewrite ?py_nth_0;
+          rewrite ?(fold_left_enum _ group_step) by (intros; reflexivity);
+          change (fold_left group_step (x0 :: rest) []) with (group_inds (x0 :: rest));
+          rewrite ?fromkeys_nodup by exact (group_inds_nodup (x0 :: rest));
+          rewrite gen_sortNDHelperA_eq;
+          let EH := fresh "EH" in let NN := fresh "NN" in
+          destruct (helperA _ _ _ _) as [front|] eqn:EH; cbn [obind]; [|reflexivity];
+          assert (NN : nonneg front) by (eapply nonneg_helperA; [apply nonneg_const|exact EH]);
+          match goal with |- context[fold_left ?f ?l ?s] =>
+            lazymatch f with context[py_extend_at] =>
+              rewrite (fold_left_ext f (fun pf fit => app_at pf (Z.to_nat (fget front fit)) (kget (group_inds (x0 :: rest)) fit [])))
+                by (intros; gnorm; apply py_extend_at_nonneg, NN) end end;
+          set (pf := fold_left _ _ _);
+          destruct ffo; cbn [negb];
+          [ now rewrite ?py_nth_0_nth
+          | first [ apply (for_loop_log_cut k pf 0 1 _ LFronts eq_refl) with (pre := []) (suf := pf)
+                  | apply (for_loop_log_cut k pf 1 0 _ LFronts eq_refl) with (pre := []) (suf := pf) ];
+            [intros; gnorm; ifs_solve | reflexivity] ] ].
 Qed.
